@@ -538,6 +538,13 @@ def subject_content(r, nr):
             sr.Measurement(name=codes.SCT.AreaOfDefinedRegion, value=1.5, unit=codes.UCUM.SquareMillimeter),
             sr.QualitativeEvaluation(name=name, value=codes.SCT.NotSignificant),
             _measurement_report(r, nr, images, use_3d=False),
+            hd.seg.SegmentDescription(
+                segment_number=1, segment_label='full', segmented_property_category=codes.SCT.Tissue,
+                segmented_property_type=codes.SCT.Tissue, algorithm_type='AUTOMATIC',
+                algorithm_identification=hd.AlgorithmIdentificationSequence(
+                    name='alg', family=codes.DCM.ArtificialIntelligence, version='1.0'),
+                tracking_uid=uids[10], tracking_id='t1', anatomic_regions=[codes.SCT.Thorax],
+                primary_anatomic_structures=[codes.SCT.Lung]),
         ]
     return {'name': 'content bundle', 'variant': (how,), 'call': call,
             'inputs': {'images': img, 'segmentation': seg, 'point2d': p2, 'point3d': p3, 'ellipsoid': ell, 'lut_data': lut}}
